@@ -388,7 +388,10 @@ func stagePreexisting(w *gal.Writer, r *gal.Rand) {
 			ops = append(ops, dop{Op: "OCreate", Name: "var/spool/job"}, dop{Op: "OCreate", Name: "lfile"}, dop{Op: "OCreate", Name: "ldang"})
 			runPreCase(w, "preexisting", how, preContent, in, ops, false)
 		}
-		for _, l := range preLinks {
+		for i, l := range preLinks {
+			if !thorough() && i%3 != 0 {
+				continue // quick tier: a third of the links as package entries (all of them directly, above)
+			}
 			runPreCase(w, "preexisting", how, preContent, true, []dop{{Op: "OCreate", Name: l + "/job"}}, true)
 		}
 	}
